@@ -259,77 +259,99 @@ class _World:
         return keys
 
 
-def _pick(v, n: int) -> int:
-    """Total map of a (symbolic) int onto range(n) by comparisons only: every input value denotes a legal
-    choice, so no path is wasted on an unmet assumption."""
-    for i in range(n - 1):
-        if v <= i:
-            return i
-    return n - 1
+class _Shape:
+    """The part of the state that determines which operations are available (shared by the harness and by
+    ``classify``, which re-decodes a history from the realised codes)."""
+
+    def __init__(self):
+        self.ncls = 2
+        self.ninst = 2
+        self.nused = 0  # listener functions are interchangeable: canonical labelling
+        self.registered = []  # (target, fn)
+
+    def alphabet(self, prof: int):
+        """Every operation available now: (kind, t, f, insert, once).
+        kind 0 listen(target t, fn f) / 1 remove(target t, fn f) / 2 create Sub2(Sub) / 3 new instance of class t /
+        4 dispatch / 5 exec_once / 6 exec_once_unless_exception on instance t.
+        prof 0 full; 1 no once / exec_once (order + hierarchy); 2 once / exec_once focus (no insert, targets {Sub,
+        Sub instance}, two listener functions, no new classes / instances, dispatch on the Sub instance);
+        3 like 1 without insert, targets {Base, Sub, Sub instance}, two functions, new instance of the newest class;
+        4 like 3 with targets {Sub, Sub instance}."""
+        ops = []
+        nf = min(self.nused + 1, 2 if prof in (2, 3, 4) else 3)
+        tg = [1, 3] if prof in (2, 4) else ([0, 1, 3] if prof == 3 else [0, 1, 2, 3])
+        for t in tg:
+            for f in range(nf):
+                if (t, f) in self.registered:
+                    continue  # registering the identical triple twice is undocumented: outside
+                for i in ((False,) if prof in (2, 3, 4) else (False, True)):
+                    for o in ((False,) if prof in (1, 3, 4) else (False, True)):
+                        ops.append((0, t, f, i, o))
+        for t in tg:
+            for f in range(nf):
+                ops.append((1, t, f, False, False))
+        if prof != 2 and self.ncls == 2:
+            ops.append((2, 0, 0, False, False))
+        if prof != 2 and self.ninst < 4:
+            for c in ([self.ncls - 1] if prof in (3, 4) else range(self.ncls)):
+                ops.append((3, c, 0, False, False))
+        insts = [1] if prof == 2 else list(range(self.ninst))
+        for i in insts:
+            ops.append((4, i, 0, False, False))
+        if prof in (0, 2):
+            for k in (5, 6):
+                for i in insts:
+                    ops.append((k, i, 0, False, False))
+        return ops
+
+    def apply(self, op) -> None:
+        kind, t, f, _, _ = op
+        if kind == 0:
+            self.registered.append((t, f))
+            if f == self.nused:
+                self.nused += 1
+        elif kind == 1:
+            if (t, f) in self.registered:
+                self.registered.remove((t, f))
+        elif kind == 2:
+            self.ncls += 1
+        elif kind == 3:
+            self.ninst += 1
 
 
-def _kinds(w: _World, prof: int) -> List[int]:
-    """Operation kinds available in the current state under the alphabet profile."""
-    ks = [0, 1]
-    if prof != 2 and len(w.classes) == 2:
-        ks.append(2)
-    if prof != 2 and len(w.insts) < 4:
-        ks.append(3)
-    ks.append(4)
-    if prof in (0, 2):
-        ks.extend([5, 6])
-    return ks
-
-
-def _targets(prof: int) -> List[int]:
-    if prof == 2:
-        return [1, 3]
-    if prof == 3:
-        return [0, 1, 3]
-    return [0, 1, 2, 3]
-
-
-def _step(w: _World, prof: int, kind, t, f, x, i_, o, pg, ck: bool, ct: bool) -> bool:
-    """One operation of the history (kind: 0 listen, 1 remove, 2 create Sub2(Sub), 3 new instance of class t,
-    4 dispatch, 5 exec_once, 6 exec_once_unless_exception on instance t).  ``kind``/``t`` are concrete slice
-    parameters when ck/ct are set, otherwise symbolic values decoded totally by ``_pick``."""
-    ks = _kinds(w, prof)
-    if ck:
-        assume(kind in ks)
-    else:
-        kind = ks[_pick(kind, len(ks))]
-    nf = min(w.nused + 1, 2 if prof in (2, 3) else 3)
-    if kind == 0:  # listen
-        tg = _targets(prof)
-        if ct:
-            assume(t in tg)
+def _bpick(v, lo: int, hi: int) -> int:
+    """Total map of a (symbolic) int onto range(lo, hi) by a balanced cascade of comparisons: every value
+    denotes a legal choice (no path is wasted on an unmet assumption) and the depth is log2(hi-lo)."""
+    hi -= 1
+    while lo < hi:
+        mid = (lo + hi) // 2
+        if v <= mid:
+            hi = mid
         else:
-            t = tg[_pick(t, len(tg))]
+            lo = mid + 1
+    return lo
+
+
+NCHUNK = 4
+
+
+def _chunk(n: int, b: int):
+    """b-th of NCHUNK contiguous chunks of range(n)."""
+    return (n * b) // NCHUNK, (n * (b + 1)) // NCHUNK
+
+
+def _do(w: _World, op, x, pg: bool) -> bool:
+    kind, t, f, i_, o = op
+    if kind == 0:
         key, tgt = w.target(t)
-        # registering the very same (target, identifier, fn) twice is not documented: outside
-        cands = [c for c in range(nf) if w.find(key, c) is None]
-        assume(len(cands) > 0)
-        f = cands[_pick(f, len(cands))]
-        if f == w.nused:
-            w.nused += 1
-        if prof in (1, 3):
-            o = False
-        if prof in (2, 3):
-            i_ = False
         event.listen(tgt, "ev_a", w.fns[f], insert=i_, propagate=pg, once=o)
-        r = _Reg(f, True if o else False)
+        r = _Reg(f, o)
         if i_:
             w.regs[key].insert(0, r)
         else:
             w.regs[key].append(r)
         return True
-    if kind == 1:  # remove
-        tg = _targets(prof)
-        if ct:
-            assume(t in tg)
-        else:
-            t = tg[_pick(t, len(tg))]
-        f = _pick(f, nf)
+    if kind == 1:
         key, tgt = w.target(t)
         r = w.find(key, f)
         try:
@@ -342,57 +364,56 @@ def _step(w: _World, prof: int, kind, t, f, x, i_, o, pg, ck: bool, ct: bool) ->
         if r is not None:
             w.regs[key].remove(r)
         return True
-    if kind == 2:  # create Sub2(Sub)
+    if kind == 2:
         w.classes.append(native(_mk_sub2, w.Sub))
         w.parents.append(1)
         return True
-    if kind == 3:  # new instance of class t
-        if prof == 3:
-            t = len(w.classes) - 1
-        elif ct:
-            assume(t < len(w.classes))
-        else:
-            t = _pick(t, len(w.classes))
+    if kind == 3:
         w.insts.append(native(_mk_inst, w.classes[t]))
         w.inst_cls.append(t)
         return True
-    # dispatch / exec_once / exec_once_unless_exception on instance t
-    if prof == 2:
-        t = 1
-    elif ct:
-        assume(t < len(w.insts))
-    else:
-        t = _pick(t, len(w.insts))
-    if kind == 4:
-        xv = 0  # a raising listener in a plain dispatch is ordinary Python semantics
-    else:
-        xv = -1 if x < 0 else 0
-    return w.check_dispatch(t, xv, kind - 4)
+    return w.check_dispatch(t, x, kind - 4)
 
 
-def h_events(n: int, prof: int, pg: bool,
-             kA: int, tA: int, fA: int, xA: int, iA: bool, oA: bool,
-             kB: int, tB: int, fB: int, xB: int, iB: bool, oB: bool,
-             kC: int, tC: int, fC: int, xC: int, iC: bool, oC: bool,
-             kD: int, tD: int, fD: int, xD: int, iD: bool, oD: bool,
-             kE: int, tE: int, fE: int, xE: int, iE: bool, oE: bool) -> bool:
-    """n operations A..E (k kind, t target/instance/class index, f listener index, x dispatched value, i insert,
-    o once); pg = the propagate flag passed to every listen of the history; prof = alphabet profile:
-    0 full; 1 no once / exec_once (order + hierarchy); 2 once / exec_once focus (no insert, targets {Sub, Sub
-    instance}, two listener functions, no new classes/instances); 3 like 1 without insert, targets {Base, Sub, Sub
-    instance}, two functions, new instance of the newest class only."""
-    ops = [(kA, tA, fA, xA, iA, oA), (kB, tB, fB, xB, iB, oB), (kC, tC, fC, xC, iC, oC),
-           (kD, tD, fD, xD, iD, oD), (kE, tE, fE, xE, iE, oE)][:n]
+def _history(n: int, prof: int, pg: bool, a0: int, b1: int, codes, xs) -> bool:
     w = _World()
+    sh = _Shape()
     try:
-        pos = 0
-        for (k, t, f, x, i_, o) in ops:
-            if not _step(w, prof, k, t, f, x, i_, o, pg, pos <= 1, pos == 0):
+        for k in range(n):
+            al = sh.alphabet(prof)
+            if k == 0:
+                assume(a0 < len(al))
+                op = al[a0]
+            elif k == 1:
+                lo, hi = _chunk(len(al), b1)
+                assume(lo < hi)
+                op = al[_bpick(codes[k - 1], lo, hi)]
+            else:
+                op = al[_bpick(codes[k - 1], 0, len(al))]
+            x = xs[k]
+            if op[0] >= 4:
+                # the dispatched value stays symbolic: >= 0 ordinary, < 0 makes every listener raise
+                if x < -1:
+                    x = -1
+                elif x > 0:
+                    x = 0
+            if not _do(w, op, x, pg):
                 return False
-            pos += 1
+            sh.apply(op)
         return native(w.check_final)
     finally:
         native(_drop_hierarchy, w.ev_cls)
+
+
+def h_events3(n: int, prof: int, pg: bool, a0: int, b1: int, c1: int, c2: int, x0: int, x1: int, x2: int) -> bool:
+    """<= 3 operations: the first one is alphabet entry a0, the second one lies in chunk b1 of the alphabet
+    (slicing only), c1/c2 select the 2nd/3rd operation, x* are the dispatched values."""
+    return _history(n, prof, pg, a0, b1, [c1, c2], [x0, x1, x2])
+
+
+def h_events5(n: int, prof: int, pg: bool, a0: int, b1: int, c1: int, c2: int, c3: int, c4: int,
+              x0: int, x1: int, x2: int, x3: int, x4: int) -> bool:
+    return _history(n, prof, pg, a0, b1, [c1, c2, c3, c4], [x0, x1, x2, x3, x4])
 
 
 # ------------------------------------------------------------------------------------------
@@ -411,12 +432,13 @@ META = {
         "util.langhelpers.{only_once,walk_subclasses}",
     ],
     "bounds": {
-        "quick": {"history": "<=3 operations, full alphabet: listen(target in {Base, Sub, a Base instance, a Sub instance}, fn in 3 (canonical labelling), "
-                             "insert?, propagate?, once?), remove(target, fn), create Sub2(Sub), new instance of any existing class, dispatch / exec_once / "
-                             "exec_once_unless_exception on any instance with x in {-1 (every listener raises), 0}; then a final dispatch of both events on every "
-                             "instance and event.contains for every (target, fn)"},
-        "thorough": {"history": "<=3 full alphabet; 4 operations without once/propagate/exec_once/raising listeners; 5 operations additionally restricted to two "
-                                "listener functions, no insert, targets {Base, Sub, the Sub instance}, new instance of the newest class only"},
+        "quick": {"history": "<=2 operations over the full alphabet: listen(target in {Base, Sub, a Base instance, a Sub instance}, fn in 3 (canonical labelling), "
+                             "insert?, once?; propagate per history), remove(target, fn), create Sub2(Sub), new instance of any existing class, dispatch / exec_once / "
+                             "exec_once_unless_exception on any instance with a symbolic value (x < 0: every listener raises); 3 operations in two profiles: "
+                             "(order+hierarchy) no once/exec_once, and (once/exec_once) no insert, targets {Sub, Sub instance}, two functions, no new classes/instances; "
+                             "every run ends with a dispatch of both events on every instance and event.contains for every (target, fn)"},
+        "thorough": {"history": "<=3 operations over the full alphabet; 4 operations without once/exec_once/insert, two listener functions, targets {Base, Sub, the Sub instance}, "
+                                "new instance of the newest class only; 5 operations likewise with targets {Sub, the Sub instance}"},
     },
     "outside": [
         "thread schedules: concurrent exec_once / first-connect dispatch (the mutex in _CompoundListener._exec_once_impl)",
@@ -435,75 +457,74 @@ META = {
 }
 
 
-def _slices(n: int, prof: int, pgs=(False, True)) -> List[dict]:
-    """Partition by the first operation (kind, target) and the kind of the second one; infeasible
-    combinations are left out (they would be vacuous)."""
+def _slices(n: int, prof: int, pgs=(False,)) -> List[dict]:
+    n0 = len(_Shape().alphabet(prof))
     out = []
-    for kA in range(7):
-        for tA in range(4):
-            if kA == 2 and tA != 0:
-                continue  # t unused
-            if kA == 3 and tA > 1:
-                continue  # only Base / Sub exist
-            if kA >= 4 and tA > 1:
-                continue  # two instances exist
-            if prof in (1, 3) and kA >= 5:
-                continue
-            if prof == 2 and (kA in (2, 3) or (kA in (0, 1) and tA in (0, 2)) or (kA >= 4 and tA != 1)):
-                continue
-            if prof == 3 and ((kA in (0, 1) and tA == 2) or (kA == 3 and tA != 1)):
-                continue
-            for kB in (range(7) if n >= 2 else (0,)):
-                if prof in (1, 3) and kB >= 5:
-                    continue
-                if prof == 2 and kB in (2, 3):
-                    continue
-                if kA == 2 and kB == 2 and n >= 2:
-                    continue  # Sub2 is created once
-                for pg in pgs:
-                    # propagate only reaches a branch for instance-level listens
-                    if pg and not (kA == 0 or (n >= 2 and kB == 0) or n >= 3):
-                        continue
-                    out.append(dict(n=n, prof=prof, pg=pg, kA=kA, tA=tA, kB=kB))
+    for a0 in range(n0):
+        for b1 in (range(NCHUNK) if n >= 2 else (0,)):
+            for pg in pgs:
+                out.append(dict(n=n, prof=prof, pg=pg, a0=a0, b1=b1))
     return out
 
 
 def harnesses(tier: str) -> List[Harness]:
     q = tier == "quick"
     hs: List[Harness] = []
-    hs.append(Harness("events_full", h_events, _slices(1, 0) + _slices(2, 0) + ([] if q else _slices(3, 0)),
-                      budget_s=200 if q else 900))
+    both = (False, True)
     if q:
-        hs.append(Harness("events_len3_order", h_events, _slices(3, 1), budget_s=200))
-        hs.append(Harness("events_len3_once", h_events, _slices(3, 2), budget_s=200))
+        hs.append(Harness("events_full", h_events3, _slices(1, 0, both) + _slices(2, 0, both), budget_s=200))
+        hs.append(Harness("events_len3_order", h_events3, _slices(3, 1), budget_s=200))
+        hs.append(Harness("events_len3_once", h_events3, _slices(3, 2), budget_s=200))
     else:
-        hs.append(Harness("events_len4", h_events, _slices(4, 3, pgs=(False,)), budget_s=900))
-        hs.append(Harness("events_len5", h_events, _slices(5, 3, pgs=(False,)), budget_s=900))
+        hs.append(Harness("events_full", h_events3, _slices(1, 0, both) + _slices(2, 0, both) + _slices(3, 0), budget_s=900))
+        hs.append(Harness("events_len4", h_events5, _slices(4, 3), budget_s=900))
+        hs.append(Harness("events_len5", h_events5, _slices(5, 4), budget_s=1500))
     return hs
+
+
+def _decode(args):
+    """Re-decode the realised codes into the operation list (same walk as ``_history``, no SQLAlchemy)."""
+    sh = _Shape()
+    codes = [args.get("c%d" % i) for i in range(1, 5)]
+    out = []
+    for k in range(args["n"]):
+        al = sh.alphabet(args["prof"])
+        if k == 0:
+            if args["a0"] >= len(al):
+                break
+            op = al[args["a0"]]
+        elif k == 1:
+            lo, hi = _chunk(len(al), args["b1"])
+            if lo >= hi:
+                break
+            op = al[_bpick(codes[0], lo, hi)]
+        else:
+            op = al[_bpick(codes[k - 1], 0, len(al))]
+        x = args.get("x%d" % k, 0)
+        out.append((op, max(-1, min(0, x))))
+        sh.apply(op)
+    return out
 
 
 def classify(hname, args, rep):
     names = ["listen", "remove", "subclass", "instance", "dispatch", "exec_once", "exec_once_unless_exception"]
     hist = []
     feats = []
-    for L in "ABCDE"[: args["n"]]:
-        kd, t, f, x = args["k" + L], args["t" + L], args["f" + L], args["x" + L]
-        nm = names[kd] if 0 <= kd < 7 else "?"
+    for (op, x) in _decode(args):
+        kd, t, f, i_, o = op
         if kd == 0:
-            hist.append("listen(t%d,f%d%s%s%s)" % (t, f, ",insert" if args["i" + L] else "", ",propagate" if args["pg"] else "",
-                                                   ",once" if args["o" + L] else ""))
-            if args["i" + L] and "insert" not in feats:
-                feats.append("insert")
-            if args["o" + L] and "once" not in feats:
-                feats.append("once")
-            if t >= 2 and "instance-target" not in feats:
-                feats.append("instance-target")
+            hist.append("listen(t%d,f%d%s%s%s)" % (t, f, ",insert" if i_ else "", ",propagate" if args["pg"] else "", ",once" if o else ""))
+            for flag, nm in ((i_, "insert"), (o, "once"), (t >= 2, "instance-target")):
+                if flag and nm not in feats:
+                    feats.append(nm)
         elif kd == 1:
             hist.append("remove(t%d,f%d)" % (t, f))
-        elif kd >= 3:
-            hist.append("%s(%d%s)" % (nm, t, (",x=%d" % x) if kd >= 4 else ""))
+        elif kd == 2:
+            hist.append("subclass")
+        elif kd == 3:
+            hist.append("instance(cls%d)" % t)
         else:
-            hist.append(nm)
+            hist.append("%s(inst%d,x=%d)" % (names[kd], t, x))
     shape = ">".join(h.split("(")[0] for h in hist)
     return ("C28:%s:%s" % (shape, "+".join(sorted(feats)) or "plain"),
             "event history %s (targets: t0=Base t1=Sub t2=Base instance t3=Sub instance) disagrees with the reference registry (%s)"
